@@ -304,7 +304,8 @@ theorem sumOverN_mul_left (ns : List ℕ) (F : List ℕ → ℂ) (c : ℂ) :
   rw [mul_comm, ← sumOverN_mul_right]
   exact congrArg _ (funext fun idx => mul_comm _ _)
 
-theorem sumOverN_finset_sum {α : Type} (ns : List ℕ) (s : Finset α) (H : α → List ℕ → ℂ) :
+theorem sumOverN_finset_sum {R : Type} [CommRing R] {α : Type} (ns : List ℕ) (s : Finset α)
+    (H : α → List ℕ → R) :
     sumOverN ns (fun js => ∑ k ∈ s, H k js) = ∑ k ∈ s, sumOverN ns (H k) := by
   induction ns generalizing H with
   | nil => rfl
@@ -350,5 +351,14 @@ theorem conj_weightOutN_real (wo : Cfg ℝ ℂ → ℝ) (gs : List (Cfg ℝ ℂ)
   induction gs with
   | nil => simp [weightOutN]
   | cons g gs ih => simp only [weightOutN, map_mul, Complex.conj_ofReal, ih]
+
+/-- sums over index lists are monotone (real summands) -/
+theorem sumOverN_mono (ns : List ℕ) (F G : List ℕ → ℝ) (h : ∀ idx, F idx ≤ G idx) :
+    sumOverN ns F ≤ sumOverN ns G := by
+  induction ns generalizing F G with
+  | nil => exact h []
+  | cons n ns ih =>
+    simp only [sumOverN, sumRange_eq]
+    exact Finset.sum_le_sum fun j _ => ih _ _ fun idx => h (j :: idx)
 
 end HcipyVerif.Fft
